@@ -18,6 +18,16 @@ HOSTILE = [
     ("ansi", "case", "SELECT CASE WHEN a THEN CASE WHEN b THEN 1 ELSE 2 END ELSE 3 END AS x FROM t\n"),
     ("ansi", "cte", "WITH a AS (SELECT 1 AS x), b AS (SELECT x FROM a) SELECT a.x, b.x FROM a JOIN b ON a.x = b.x\n"),
     ("ansi", "union", "SELECT 1 UNION SELECT 2 UNION ALL SELECT 3 ORDER BY 1\n"),
+    # constructs where whitespace or a newline is significant for the lexer / parser
+    ("flink", "set-hyphen", "SET execution.runtime-mode = streaming;\n"),
+    ("hive", "set-hyphen", "SET hive.exec.dynamic-partition.mode=nonstrict;\n"),
+    ("databricks", "named-param", "SELECT * FROM t WHERE id=:param_id AND b=:other\n"),
+    ("ansi", "comment-before-bracket", "SELECT COALESCE(my_func -- note\n(1), 2) FROM t\n"),
+    ("ansi", "comment-before-cast", "SELECT CAST -- c\n(a AS INT), b FROM t\n"),
+    ("bigquery", "comment-before-index", "SELECT arr -- c\n[0], x FROM t\n"),
+    ("ansi", "comment-inside-expr", "SELECT a + -- plus\nb, c FROM t\n"),
+    ("postgres", "array-slice", "SELECT a[1:2], b [ 1 ] FROM t\n"),
+    ("snowflake", "colon-path", "SELECT v:a.b::string , v : c FROM t\n"),
     ("sqlite", "exists", "SELECT a FROM t WHERE EXISTS(SELECT 1 FROM u WHERE u.a = t.a) AND a<>1 AND b!=2\n"),
 ]
 
